@@ -2,7 +2,7 @@ SPECIFICATION Spec
 CONSTANTS
   MaxTok = 2
   Forms = {"str", "bytes"}
-  ArgKinds = {"none", "str", "two", "bytes", "nl", "dict"}
+  ArgKinds = {"none", "str", "two", "bytes", "nl", "dict", "raises"}
   ExcKinds = {"none", "simple", "multiline", "bytes", "pretext"}
   Colors = {FALSE, TRUE}
 VIEW View
